@@ -280,3 +280,27 @@ func PublicWithXAtLeastOrder(t string, n int) *Key {
 		found++
 	}
 }
+
+// PublicWithX returns the public key (no private part; Index is -1000-x) of the curve with the given small X coordinate, or nil
+// when no point of the curve has that X: coordinates that are zero or all zero bytes but the last.
+func PublicWithX(t string, x int64) *Key {
+	c := Curve(t)
+	if c == nil {
+		panic("keys: unknown curve " + t)
+	}
+	p := c.Params()
+	a := big.NewInt(-3)
+	if t == "secp256k1" {
+		a = big.NewInt(0)
+	}
+	bx := big.NewInt(x)
+	rhs := new(big.Int).Exp(bx, big.NewInt(3), p.P)
+	rhs.Add(rhs, new(big.Int).Mul(a, bx))
+	rhs.Add(rhs, p.B)
+	rhs.Mod(rhs, p.P)
+	y := new(big.Int).ModSqrt(rhs, p.P)
+	if y == nil || !c.IsOnCurve(bx, y) {
+		return nil
+	}
+	return &Key{Type: t, Index: int(-1000 - x), EC: &ecdsa.PrivateKey{PublicKey: ecdsa.PublicKey{Curve: c, X: bx, Y: y}}}
+}
